@@ -181,6 +181,18 @@ func genC13(tier string, r *rng, emit func(string)) {
 	thorough := tier == "thorough"
 	// (0) the Concat / Repeat shape calculators against the executed operations: every axis in
 	//     [-1, rank+1], fitting and misfitting partners, uniform / per-element / wrong-length counts
+	// Narrow (package-level and method form) against the slicing calculator: the same programs as C02
+	for _, sh := range [][]int{{4}, {3, 4}, {2, 3, 2}} {
+		for dim := range sh {
+			for st := 0; st <= sh[dim]; st++ {
+				for ln := 0; st+ln <= sh[dim]+1; ln++ {
+					for _, form := range []string{"api", "method"} {
+						emit(fmt.Sprintf("prog f64 new:rm:%s:0;narrow:0:%d:%d:%d:%s", fints(sh), dim, st, ln, form))
+					}
+				}
+			}
+		}
+	}
 	for _, sh := range [][]int{{3}, {2, 3}, {3, 1}, {1, 3}, {2, 3, 2}, {2, 1, 2, 3}} {
 		for axis := -1; axis <= len(sh)+1; axis++ {
 			emit(fmt.Sprintf("shapec %s %d -", fints(sh), axis))
